@@ -19,6 +19,15 @@ def decode_case(prop, case):
     return case
 
 CONFIG = {
+ "C07": {
+  "engine": "bytecode",
+  "rule": "CRC model vs crc32fast on random byte strings; 14 emitted files x (pristine load, byte-exact re-encode, all single-bit flips and all truncations for 3 files (thorough: all), sampled flips/truncations/bursts<=32 bits incl. bursts reaching the trailer); random byte strings; random instruction lists through write_to/from_bytes; distinct = distinct case lines",
+  "trusted": ["crc32fast::hash is checked against the bitwise model on every run, not assumed",
+              "header/section/constant decoding is not modelled yet: only the CRC stage and the instruction codec carry theorems; hostile files with a recomputed CRC are outside this check"],
+  "assumptions": ["bit order of bursts is transmission order (byte by byte, least significant bit first)"],
+  "level_text": "Machine-checked theorems (Lean 4): any non-zero error pattern confined to 32 consecutive bits (every single-bit flip, any damage within 4 consecutive bytes, damage inside the trailer) turns a verifying file of any length into a rejected one; files shorter than the trailer are rejected; the trailer check is exactly crc32(payload)=LE trailer; the instruction codec round-trips for all instruction lists not ending in Ret (counterexample theorem for the Ret case, a latent defect). Tied to the code by differential runs against crc32fast and ParsedProgram::from_bytes/to_bytes. Partial: header, sections and constant decoding and the no-unbounded-allocation clause are not modelled.",
+  "level_note": "Trusted: Lean kernel + propext/Classical.choice/Quot.sound; the harness; that the loader calls verify_crc_trailer_seek first (observed: every damaged file is rejected). Truncations are covered by exhaustive per-file sweeps, not by a theorem (a truncated file passes the CRC with probability 2^-32).",
+ },
  "C20": {
   "rule": "every edge subset of the include graph over 3 files (512 graphs, plain and decorated rendering; thorough: all 65536 over 4 files) plus random graphs over 2-5 files in 3 directories with fences, CRLF, whitespace and non-include brace lines; distinct = distinct file-system encodings",
   "trusted": ["std::fs::canonicalize modelled as lexical normalisation with existence checks on a symlink-free tree",
